@@ -20,10 +20,10 @@ def setup(mod, H):
     e = [EE(Z, B(k)) for k in range(4)]; J = [JF(Z, B(k)) for k in range(4)]; w = [FY(Z, B(k)) for k in range(4)]
     f12 = CK(Z, B(H['FL12_TRANS'])); f13 = CK(Z, B(H['FL13_TRANS'])) + CK(Z, B(H['FLP13_TRANS'])); f23 = CK(Z, B(H['FL23_TRANS']))
     a = [And(e[k] > 0, E > e[k]) for k in range(4)]
-    # representation invariant of the shipped tables (DL2): present edges are physically ordered K > L1 > L2 > L3;
+    # representation invariant of the shipped tables (DL2): present edges are physically ordered K >= L1 >= L2 >= L3 (L2 = L3 for light elements);
     # jump ratios are 0 (absent) or >= 1; all primitives are >= 0
     inv = And(*[Or(J[k] == 0, J[k] >= 1) for k in range(4)] +
-              [Implies(And(e[i] > 0, e[j] > 0), e[i] > e[j]) for i in range(4) for j in range(i + 1, 4)] +
+              [Implies(And(e[i] > 0, e[j] > 0), e[i] >= e[j]) for i in range(4) for j in range(i + 1, 4)] +
               [x >= 0 for x in e + J + w + [f12, f23, CK(Z, B(H['FL13_TRANS'])), CK(Z, B(H['FLP13_TRANS']))]])
     kfac = If(a[0], 1 / J[0], RealVal(1))
     # tau_i: fraction of the (sub-K) absorption attributable to L_i at energy E
@@ -138,7 +138,9 @@ def check(run):
     mod = bcheck.load_units(run, ['cs_line.c'])
     run.assumptions += ['real arithmetic for double (DESIGN.md §2.3)',
                         'primitives EdgeEnergy/JumpFactor/FluorYield/CosKronTransProb/CS_Photo/RadRate are uninterpreted, >= 0, and report an error iff they return 0 (their own contracts are C01/C02)',
-                        'DL2: present edges ordered K > L1 > L2 > L3; jump ratios are 0 or >= 1']
+                        'DL2: present edges ordered K >= L1 >= L2 >= L3; jump ratios are 0 or >= 1']
     groups = [('C09/shell/%d' % k, (lambda cl, k=k: b_shell(cl, mod, H, k)), ()) for k in range(4)]
     groups.append(('C09/line', (lambda cl: b_line(cl, mod, H)), ()))
     bcheck.run_groups(run, groups)
+    from vlib import datalemma
+    datalemma.attach(run, 'C09', want=('jump',))
